@@ -1317,3 +1317,97 @@ Proof.
     destruct (0 <=? Z.of_nat w) eqn:E0; [reflexivity|]. apply Z.leb_gt in E0. lia. }
   rewrite Hcr. eexists. split; [reflexivity|]. simpl. apply nth_error_upd_same. eapply nth_error_lt. exact Ht.
 Qed.
+
+(* ------------------------------------------------------------------ *)
+(* http round-robin fairness                                           *)
+(* ------------------------------------------------------------------ *)
+Lemma filter_map_length : forall A B (f : A -> B) p l,
+  length (filter p (map f l)) = length (filter (fun t => p (f t)) l).
+Proof. induction l as [|x l IH]; simpl; [reflexivity|]. destruct (p (f x)); simpl; rewrite IH; reflexivity. Qed.
+
+Lemma count_eq_seq : forall i n s,
+  ((s <= i < s + n)%nat -> length (filter (fun u => Nat.eqb u i) (seq s n)) = 1%nat) /\
+  (~ (s <= i < s + n)%nat -> length (filter (fun u => Nat.eqb u i) (seq s n)) = 0%nat).
+Proof.
+  induction n as [|n IH]; intro s; simpl.
+  - split; intro H; [lia|reflexivity].
+  - destruct (IH (S s)) as [IH1 IH2]. destruct (Nat.eqb s i) eqn:E; simpl.
+    + apply Nat.eqb_eq in E. subst. split; intro H; [|lia]. rewrite IH2 by lia. reflexivity.
+    + apply Nat.eqb_neq in E. split; intro H; [apply IH1|apply IH2]; lia.
+Qed.
+
+Section Fair.
+Variable L i : nat.
+Hypothesis HL : (i < L)%nat.
+Let Q (u : nat) : bool := Nat.eqb (u mod L) i.
+
+Lemma window_zero : length (filter Q (seq 0 L)) = 1%nat.
+Proof.
+  rewrite (filter_ext_in Q (fun u => Nat.eqb u i)).
+  - apply (proj1 (count_eq_seq i L 0)). lia.
+  - intros u Hu. apply in_seq in Hu. unfold Q. rewrite Nat.mod_small by lia. reflexivity.
+Qed.
+
+Lemma window_any : forall s, length (filter Q (seq s L)) = 1%nat.
+Proof.
+  induction s as [|s IH]; [apply window_zero|].
+  destruct L as [|L'] eqn:EL; [lia|].
+  rewrite seq_S, filter_app, app_length. simpl seq in IH. simpl filter in IH.
+  assert (Hq : Q (S s + L') = Q s).
+  { unfold Q. replace (S s + L')%nat with (s + 1 * L)%nat by lia. rewrite EL at 1. rewrite <- EL. rewrite Nat.mod_add by lia. reflexivity. }
+  change (filter Q [(S s + L')%nat]) with (if Q (S s + L')%nat then [(S s + L')%nat] else []).
+  rewrite Hq. destruct (Q s); simpl in *; lia.
+Qed.
+
+Lemma windows_k : forall k s, length (filter Q (seq s (k * L))) = k.
+Proof.
+  induction k as [|k IH]; intro s; [reflexivity|].
+  simpl. rewrite seq_app, filter_app, app_length, window_any, IH. reflexivity.
+Qed.
+
+Lemma count_shift : forall a n s,
+  length (filter (fun t => Q (a + t)) (seq s n)) = length (filter Q (seq (a + s) n)).
+Proof.
+  induction n as [|n IH]; intro s; [reflexivity|]. simpl.
+  rewrite <- Nat.add_succ_r. destruct (Q (a + s)); simpl; rewrite IH; reflexivity.
+Qed.
+End Fair.
+
+Lemma picks_spec : forall n g, g_lns g <> [] -> (forall x, In x (g_lns g) -> In x (g_funcs g)) ->
+  picks g n = map (fun t => match nth_error (g_lns g) (Z.to_nat ((g_idx g + Z.of_nat t) mod Z.of_nat (length (g_lns g)))) with
+                            | Some x => CTo x | None => CNoFunc end) (seq 1 n).
+Proof.
+  induction n as [|n IH]; intros g Hne Hsub; [reflexivity|].
+  simpl picks. destruct (http_pick g) as [g' o] eqn:Ep.
+  destruct (http_pick_member _ _ _ Ep Hne Hsub) as [Hi [Hl [Hf [name [Hn ->]]]]].
+  simpl seq. simpl map. f_equal.
+  - replace (g_idx g + Z.of_nat 1) with (g_idx g + 1) by lia. rewrite Hn. reflexivity.
+  - rewrite IH by (rewrite ?Hl, ?Hf; assumption). rewrite <- (seq_shift n 1), map_map. apply map_ext. intro t.
+    rewrite Hl, Hi. replace (g_idx g + 1 + Z.of_nat t) with (g_idx g + Z.of_nat (S t)) by lia. reflexivity.
+Qed.
+
+(* over k * n consecutive requests each of the n members of an http group is chosen exactly k times *)
+Theorem http_fair : forall g k x,
+  NoDup (g_lns g) -> (forall y, In y (g_lns g) -> In y (g_funcs g)) -> 0 <= g_idx g -> In x (g_lns g) ->
+  length (filter (is_to x) (picks g (k * length (g_lns g)))) = k.
+Proof.
+  intros g k x Hnd Hsub Hidx Hx.
+  assert (Hne : g_lns g <> []) by (intro H; rewrite H in Hx; exact Hx).
+  set (L := length (g_lns g)). assert (HL : (0 < L)%nat) by (unfold L; destruct (g_lns g); [congruence|simpl; lia]).
+  destruct (In_nth_error _ _ Hx) as [i Hi]. assert (HiL : (i < L)%nat) by (eapply nth_error_lt; exact Hi).
+  rewrite picks_spec by assumption. rewrite filter_map_length.
+  set (a := Z.to_nat (g_idx g)).
+  rewrite (filter_ext_in _ (fun t => Nat.eqb ((a + t) mod L) i)).
+  - rewrite (count_shift L i a). apply windows_k. exact HiL.
+  - intros t _. fold L.
+    assert (Hpos : Z.to_nat ((g_idx g + Z.of_nat t) mod Z.of_nat L) = ((a + t) mod L)%nat).
+    { replace (g_idx g + Z.of_nat t) with (Z.of_nat (a + t)) by (unfold a; lia).
+      rewrite <- Nat2Z.inj_mod. apply Nat2Z.id. }
+    rewrite Hpos.
+    assert (Hlt : ((a + t) mod L < L)%nat) by (apply Nat.mod_upper_bound; lia).
+    destruct (nth_error (g_lns g) ((a + t) mod L)) as [y|] eqn:Ey; [|apply nth_error_None in Ey; fold L in Ey; lia].
+    simpl. destruct (Nat.eqb ((a + t) mod L) i) eqn:E.
+    + apply Nat.eqb_eq in E. rewrite E in Ey. assert (y = x) by congruence. subst. apply Z.eqb_refl.
+    + apply Nat.eqb_neq in E. apply Z.eqb_neq. intro; subst y. apply E.
+      apply (proj1 (NoDup_nth_error (g_lns g)) Hnd); [exact Hlt|congruence].
+Qed.
